@@ -1,6 +1,6 @@
 (* C02 — Retry discipline: bounded attempts, none after expiry, non-idempotent once. *)
 From Coq Require Import ZArith List Bool Lia.
-From PV Require Import sock.Sock sock.SockProofs.
+From PV Require Import sock.Sock sock.SockProofs sock.Drain sock.DrainProofs.
 Import ListNotations.
 Open Scope Z_scope.
 
@@ -88,3 +88,15 @@ Example C02_witness :
   widx (trace (init 0) [OOpen; OAdv 1; ONet true 1023; OPeerRst; OSend 1 EncOk 0 1024; OAdv 1024; OAdv 5]) = [0%nat].
 Proof. vm_compute. repeat split; reflexivity. Qed.
 Print Assumptions C02_witness.
+
+(* ---- under transport back-pressure (coq/sock/Drain.v): however long drain() stays blocked and whatever is sent
+   meanwhile, a frame is handed to the transport only before its lifetime has ended (the clock is read per entry,
+   after the suspension), and at most once *)
+Theorem C02_backpressure_expiry : forall c ops s tr i t,
+  drun (dinit c) ops = Some (s, tr) -> In (DWrote i t) tr -> exists x, In (DAccept i x) tr /\ t < x.
+Proof. exact drain_expiry. Qed.
+Print Assumptions C02_backpressure_expiry.
+
+Theorem C02_backpressure_once : forall c ops s tr, drun (dinit c) ops = Some (s, tr) -> NoDup (written tr).
+Proof. exact drain_once. Qed.
+Print Assumptions C02_backpressure_once.
